@@ -141,6 +141,9 @@ def run(tier, seed, replay=None):
     ck.replayers["w.gen"] = replay_dmd
     from checks import dmd_common
     dmd_common.params_contract(ck)
+    from checks import filelist_common
+    filelist_common.dmd_file_list_contract(ck, mod)
+    ck.replayers["dmdlist."] = replay_dmd
     ck.replayers["dmd."] = replay_dmd
     ck.discharge()
     nch = 1200 if tier == "thorough" else 120
